@@ -473,6 +473,23 @@ def decide(prop, tier, seed, a, rundir, woven, t0):
             print("VIOLATION property=%s replay=%s" % (prop, rp))
             return 1
         return bounded_only(prop, tier, seed, "weave: %s" % e, ws, props.PROPS.get(prop, {}), t0)
+    # W11: recipes whose anchors are gone on this tree were woven under trusted contracts; a property tagged on
+    # one of their units or clauses is undecided deductively here (bounded stand-in), the others keep their proofs
+    lost = meta.get("lost") or {}
+    for r, l in lost.items():
+        print("DEGRADED property=%s recipe=%s units=%d tags=%s reason=%s" % (prop, r, len(l["units"]), ",".join(l["tags"]), l["reason"][:200]))
+    lost_tags = {t for l in lost.values() for t in l["tags"]} | ({"C12"} if lost else set())
+    if prop in lost_tags:
+        why = "; ".join("contract recipe %s lost its anchors (%s)" % (r, l["reason"][:160]) for r, l in lost.items() if prop in l["tags"] or prop == "C12")
+        ws = witness_search(prop, a.repo, rundir, seed) if prop in WITNESS_PROPS else {"cases": 0, "failures": [], "error": "no family"}
+        if ws["failures"]:
+            rp = write_replay(prop, [], ["(degraded weave: %s)" % why], [], ws, note="deductive check UNDECIDED (%s); bounded differential check found a failing input" % why)
+            w = ws["failures"][0]
+            print("BOUNDED-CHECK property=%s cases=%d failing=%d (deductive check undecided: %s)" % (prop, ws["cases"], len(ws["failures"]), why))
+            print("FAILING-INPUT property=%s ptr=%s expected: %s actual: %s" % (prop, w["ptr"], w["expected"][:160], w["actual"][:200]))
+            print("VIOLATION property=%s replay=%s" % (prop, rp))
+            return 1
+        return bounded_only(prop, tier, seed, why, ws, props.PROPS.get(prop, {}), t0)
     sm = SegMap(meta, a.repo)
     extra = ["--num-threads", "16", "--multiple-errors", "20", "--rlimit", "60" if tier == "quick" else "120"]
     if seed:
@@ -505,6 +522,9 @@ def decide(prop, tier, seed, a, rundir, woven, t0):
     my_fail = [f for f in failures if prop in f["tags"]]
     other_fail = [f for f in failures if prop not in f["tags"]]
     trusted = trusted_scan(woven)
+    for r, l in lost.items():
+        trusted.append({"kind": "degraded-recipe", "where": "specs/contracts/%s.py" % r,
+                        "what": "on this tree the anchors of the recipe are gone (%s): its %d units are under TRUSTED contracts for this run" % (l["reason"][:120], len(l["units"]))})
     info = props.PROPS.get(prop, {})
     # ---- undecided?
     if undecided:
